@@ -736,7 +736,7 @@ func c19redefine(r *report.Run) {
 }
 
 func c19run(r *report.Run) {
-	r.Rule("(a) every constructor over its domain (all 256 values for the 8-bit types, boundary sets otherwise, the C13 string pool, slices of 0..4 elements, maps of 4 key kinds, Wrap/Error/Nil) read back through every matching accessor and through VM.Set/Get; (b) all six NewFunc forms x arity 0..6 x results 0..4 x variadic tail 0..3 x 11 call contexts x {constant, typed} arguments; (c) VM.Call/VM.Func on script functions with 0..6 parameters x 0..4 results x every requested count 0..declared+1 x {right, one fewer, one more} arguments; (d) string/error/script/run-time panics at nesting depth 1..3, also inside sort comparators; non-trivial = every configuration except arity 0 statement calls")
+	r.Rule("(a) every constructor over its domain (all 256 values for the 8-bit types, boundary sets otherwise, the C13 string pool, slices of 0..4 elements, maps of 4 key kinds, Wrap/Error/Nil) read back through every matching accessor and through VM.Set/Get; (b) all six NewFunc forms x arity 0..6 x results 0..4 x variadic tail 0..3 x 11 call contexts x {constant, typed} arguments; (c) VM.Call/VM.Func on script functions with 0..6 parameters x 0..4 results x every requested count 0..declared+1 x {right, one fewer, one more} arguments; (e) argument slices with spare capacity and results across two calls stay the host's; (d) string/error/script/run-time panics at nesting depth 1..3, also inside sort comparators; non-trivial = every configuration except arity 0 statement calls")
 	r.Assume("expected values are what the generator planted", "form func(*VM) can only be registered as a 0->0 function from outside the package (the VM stack is unexported)")
 	c19roundTrips(r)
 	cfgs := c19configs()
@@ -760,6 +760,81 @@ func c19run(r *report.Run) {
 	c19errorChecks(r)
 	c19reentry(r)
 	c19redefine(r)
+	c19aliasing(r)
+}
+
+// c19aliasing: what the host passes in stays the host's, what it got back stays what it got: arguments given as a
+// slice with spare capacity (0..3 elements of room) are unchanged after the call, and the results of one call do not
+// change when another call is made with the same argument slice; for Call and Func, 0..4 parameters, 1..3 results.
+func c19aliasing(r *report.Run) {
+	for n := 0; n <= 4; n++ {
+		for rets := 1; rets <= 3; rets++ {
+			var ps, rs, rt []string
+			for i := 0; i < n; i++ {
+				ps = append(ps, fmt.Sprintf("a%d int", i))
+			}
+			for k := 0; k < rets; k++ {
+				term := fmt.Sprint(k + 1)
+				for i := 0; i < n; i++ {
+					term += fmt.Sprintf(" + a%d*%d", i, (k+2)*(i+1))
+				}
+				rs = append(rs, term)
+				rt = append(rt, "int")
+			}
+			src := fmt.Sprintf("package q\n\nfunc S(%s) (%s) {\n\treturn %s\n}\n", strings.Join(ps, ", "), strings.Join(rt, ", "), strings.Join(rs, ", "))
+			for room := 0; room <= 3; room++ {
+				for _, via := range []string{"Call", "Func"} {
+					m := goat.New()
+					if lr := m.Load(goat.FS(map[string]string{"q/q.go": src}), "q"); lr.Failed() {
+						r.Fail(&report.Case{Kind: "aliasing", Key: src, Want: "loads", Got: lr.String()})
+						m.Close()
+						continue
+					}
+					call := func(args []goatlang.Value) goat.Result {
+						if via == "Call" {
+							return m.Call("q.S", rets, args...)
+						}
+						return m.Func(m.VM.Get("q.S"), rets, args...)
+					}
+					args := make([]goatlang.Value, n, n+room)
+					for i := range args {
+						args[i] = goatlang.Int(i + 1)
+					}
+					r1 := call(args)
+					show := func(vs []goatlang.Value) string {
+						var p []string
+						for _, v := range vs {
+							p = append(p, v.String())
+						}
+						return strings.Join(p, " ")
+					}
+					first, argsAfter := show(r1.Rets), show(args)
+					for i := range args {
+						args[i] = goatlang.Int(10 * (i + 1))
+					}
+					r2 := call(args)
+					key := fmt.Sprintf("VM.%s on a function with %d parameters and %d results, arguments passed as a slice with room for %d more", via, n, rets, room)
+					r.Eval(1)
+					r.Nontrivial(key)
+					var wantArgs []string
+					for i := 0; i < n; i++ {
+						wantArgs = append(wantArgs, fmt.Sprint(i+1))
+					}
+					switch {
+					case r1.Failed() || r2.Failed():
+						r.Fail(&report.Case{Kind: "aliasing", Key: key, Want: "both calls succeed", Got: r1.String() + " / " + r2.String()})
+					case argsAfter != strings.Join(wantArgs, " "):
+						r.Fail(&report.Case{Kind: "aliasing", Key: key, Want: "the host's argument slice is unchanged by the call: " + strings.Join(wantArgs, " "), Got: argsAfter})
+					case show(r1.Rets) != first:
+						r.Fail(&report.Case{Kind: "aliasing", Key: key, Want: "the results of the first call stay " + first + " after a second call", Got: show(r1.Rets)})
+					case n > 0 && show(r2.Rets) == first:
+						r.Fail(&report.Case{Kind: "aliasing", Key: key, Want: "the second call sees its own arguments", Got: show(r2.Rets)})
+					}
+					m.Close()
+				}
+			}
+		}
+	}
 }
 
 func c19rerun(c *report.Case) (bool, string) {
@@ -784,6 +859,8 @@ func c19rerun(c *report.Case) (bool, string) {
 		c19reentry(rr)
 	case "redefine":
 		c19redefine(rr)
+	case "aliasing":
+		c19aliasing(rr)
 	}
 	return rr.Violations() > 0, fmt.Sprintf("%d failing cases in the %s family", rr.Violations(), c.Kind)
 }
